@@ -61,6 +61,7 @@ type Service struct {
 	groups        sync.Map            // key=gid  value= *Group
 	peerGroups    map[string][]*Group // key=peer value= []*Group
 	peerGroupsMix sync.Mutex
+	dedupMix      sync.Mutex // makes "first time seen" an atomic test-and-set
 	msgSeq        uint64
 	close         chan struct{}
 	sessionStream sync.Map // key= sessionID, value= *WsStream
@@ -195,7 +196,11 @@ func (s *Service) Multicast(info *pb.MulticastMsg, skip ...boson.Address) error 
 	origin := boson.NewAddress(info.Origin)
 
 	key := fmt.Sprintf("Multicast_%s_%d", origin, info.Id)
+	// SetIfNotExist is a Contains followed by a Set: without the lock two
+	// copies of a message arriving at the same moment both count as new.
+	s.dedupMix.Lock()
 	setOK, err := cache.SetIfNotExist(cacheCtx, key, 1, multicastMsgCache)
+	s.dedupMix.Unlock()
 	if err != nil {
 		return err
 	}
@@ -251,7 +256,9 @@ func (s *Service) onMulticast(ctx context.Context, peer p2p.Peer, stream p2p.Str
 	origin := boson.NewAddress(info.Origin)
 
 	key := fmt.Sprintf("onMulticast_%s_%d", origin, info.Id)
+	s.dedupMix.Lock()
 	setOK, err := cache.SetIfNotExist(cacheCtx, key, 1, multicastMsgCache)
+	s.dedupMix.Unlock()
 	if err != nil {
 		return err
 	}
